@@ -12,10 +12,12 @@ import sys
 import time
 
 VERIF = os.path.dirname(os.path.dirname(os.path.dirname(os.path.abspath(__file__))))
-REPO = os.environ.get("VERIF_REPO", "/repo")
-BUILD = os.path.join(VERIF, ".build")
+REPO = os.path.abspath(os.environ.get("VERIF_REPO", "/repo"))
+# checks normally run against /repo; VERIF_REPO=<scratch worktree> runs the same checks against another tree
+# (used to try seeded changes without touching /repo) with its own build directory
+BUILD = os.path.join(VERIF, ".build") if REPO == "/repo" else os.path.join(VERIF, ".build", "alt-" + REPO.strip("/").replace("/", "_"))
 EVIDENCE_DIR = os.path.join(VERIF, "evidence")
-CEX_DIR = os.path.join(VERIF, ".build", "cex")
+CEX_DIR = os.path.join(BUILD, "cex")
 
 OFFLINE_ENV = {"CARGO_NET_OFFLINE": "true", "GOPROXY": "off", "PIP_NO_INDEX": "1"}
 
